@@ -210,8 +210,11 @@ def run_property(mod, tier, seed, max_seconds=None, replay=None):
     os.makedirs(rdir, exist_ok=True)
     out_lines = []
     flaky = 0
+    byhit = {}
     for sig, case, msg, cnt, dg, hit in listed:
-        out_lines.append('KNOWN-FINDING: property=%s %s [%s x%d]' % (pid, hit, sig, cnt))
+        byhit.setdefault(hit, []).append('%s x%d' % (sig, cnt))
+    for hit, sigs in byhit.items():
+        out_lines.append('KNOWN-FINDING: property=%s %s [%s]' % (pid, hit, ', '.join(sigs)))
     nviol = 0
     for sig, case, msg, cnt, dg, hit in new:
         path = os.path.join(rdir, '%s-%s.json' % (pid, dg))
